@@ -450,10 +450,10 @@ def check(run):
                 "with the documented polarity; (R16d) resolve consults shortcut, memo (keyed by the type), the list "
                 "in order, base, default.")
     C = registry_class(run)
-    r16a(run, C)
-    r16b(run, C)
-    r16c(run, C)
-    r16d(run, C)
-    r16e(run)
-    r16f(run)
-    r16g(run)
+    run.rule(r16a, run, C)
+    run.rule(r16b, run, C)
+    run.rule(r16c, run, C)
+    run.rule(r16d, run, C)
+    run.rule(r16e, run)
+    run.rule(r16f, run)
+    run.rule(r16g, run)
